@@ -101,7 +101,7 @@ func registerLawSet[M any](r *mc.Registry, ls lawSet[M]) {
 
 func registerLaws(r *mc.Registry) {
 	vals := []string{"a", "b", ""}
-	contents := []named[[]string]{{"[]", nil}, {"[a]", []string{"a"}}, {"[a b]", []string{"a", "b"}}, {"[b a b]", []string{"b", "a", "b"}}}
+	contents := []named[[]string]{{"[]", nil}, {"[a]", []string{"a"}}, {"[a b]", []string{"a", "b"}}, {"[b a b]", []string{"b", "a", "b"}}, {`[a b ""]`, []string{"a", "b", ""}}}
 
 	// ---- Option
 	registerLawSet(r, lawSet[fp.Option[string]]{
@@ -209,6 +209,16 @@ func registerLaws(r *mc.Registry) {
 					return seq.Of("x", "y", "z")
 				}
 				return seq.Of(s)
+			}},
+			// results with spare capacity that alias one array (what Take/Init/s[:i] return)
+			{"views", func(e *Env, s string) fp.Seq[string] {
+				switch s {
+				case "a":
+					return e.Views(1)
+				case "b":
+					return e.Views(2)
+				}
+				return e.Views(3)
 			}},
 		},
 	})
